@@ -155,6 +155,48 @@ def judge(ctx, t, mapping, classes, supplied, cls):
              keys=keys, cls=cls, sig=[prob, sorted(keys)])
 
 
+def bound_free_term(rng):
+    """The same path once bound by a lambda variable and once free, in either order."""
+    var = rng.choice(["t", "x", "it"])
+    attr = rng.choice(["name", "title", "b"])
+    P = T.path(var, attr)
+    lam = ("lam", T.ident(rng.choice(["tags", "items", "a"])), rng.choice(["any", "all"]), var,
+           ("cmp", "eq", P, T.S("red")))
+    free = ("cmp", rng.choice(["eq", "ne"]), P if rng.random() < 0.7 else T.path(var, attr, "c"), T.S("blue"))
+    parts = [lam, free] if rng.random() < 0.5 else [free, lam]
+    t = ("bool", rng.choice(["and", "or"]), parts[0], parts[1])
+    key = P if rng.random() < 0.6 else T.ident(var)
+    return t, {key: rng.choice(TARGETS)}
+
+
+def reuse_sequence(ctx, terms, mapping):
+    """One rewriter instance applied to several trees in a row (history on the instance)."""
+    amap = {to_text(k): to_text(v) for k, v in mapping.items()}
+    try:
+        rw = AliasRewriter(amap)
+    except Exception:
+        return
+    nm = {norm_for_parse(k): norm_for_parse(v) for k, v in mapping.items()}
+    for i, t in enumerate(terms):
+        o = drive.parse_ast(to_text(t))
+        if o[0] != "ok":
+            continue
+        ctx.count("evaluations")
+        ctx.count("reuse_steps")
+        before = decode(o[1])
+        try:
+            got = decode(rw.visit(o[1]))
+        except Exception as e:
+            got = ("raises", type(e).__name__, str(e)[:100])
+        want = subst_ref(before, nm)
+        if got != want:
+            ctx.fail({"texts": [to_text(x) for x in terms[: i + 1]], "map": amap, "position": i},
+                     "a reused rewriter instance differs from exact substitution (history)",
+                     expected=want, observed=got, keys=findings.rewrite_triggers(t, mapping),
+                     cls="reuse", sig=["reuse"])
+            return
+
+
 def bijection(ctx, t):
     text = to_text(t)
     o = drive.parse_ast(text)
@@ -206,6 +248,14 @@ def run(ctx):
         if i % 5 == 0:
             judge(ctx, t, {}, ["empty-map"], False, "identity")
             bijection(ctx, t)
+        if i % 4 == 0:
+            bt, bmap = bound_free_term(rng)
+            judge(ctx, bt, bmap, ["bound-and-free-path"], rng.random() < 0.2, "bound-free")
+            # history on one instance: plain use first / lambda use first / mixed
+            plain = ("cmp", "eq", list(bmap)[0] if list(bmap)[0][0] == "attr" else T.path(list(bmap)[0][1], "name"), T.S("q"))
+            seqs = [[plain, bt, plain], [bt, plain], [t, bt, plain, t]]
+            reuse_sequence(ctx, rng.choice(seqs), bmap)
+            reuse_sequence(ctx, [t, t], mapping)
         if i % 500 == 0:
             ctx.sample({"text": to_text(t)[:160],
                         "map": {to_text(k): to_text(v) for k, v in mapping.items()}})
@@ -238,11 +288,13 @@ def requirements(m):
     if not m["counters"].get("M-immut"):
         out.append("M-immut never evaluated")
     for k in ("key:member", "key:owner-prefix", "key:function-name", "key:named-param-name",
-              "key:lambda-var", "key:non-member", "key:empty-map"):
+              "key:lambda-var", "key:non-member", "key:empty-map", "key:bound-and-free-path"):
         if not m["classes"].get(k):
             out.append("map class never generated: " + k)
     if not m["counters"].get("bijections"):
         out.append("no bijection cases")
+    if m["counters"].get("reuse_steps", 0) < 50:
+        out.append("rewriter reuse lane under-evaluated")
     return out
 
 
